@@ -1786,3 +1786,9 @@ TABLE["C10"] += [
       (MW, "        for static_method in static_methods:\n            format_name = list(static_method[0].name)", "        if not static_methods:\n            return method_text\n\n        for static_method in static_methods:\n            format_name = list(static_method[0].name)")),
     N("namespace-registered-only-if-already-filled", (MW, "        if inner_namespace:\n            self.content.append(inner_namespace_scope)", "        if inner_namespace and inner_namespace_scope:\n            self.content.append(inner_namespace_scope)")),
 ]
+TABLE["C18"] += [
+    B("matrix-copied-with-the-column-count-as-stride", {"K5"},
+      (H, "  for (int j=0;j<n;j++) for (int i=0;i<m;i++,data++) A(i,j) = *data;", "  for (int j=0;j<n;j++) for (int i=0;i<m;i++) A(i,j) = data[j*n+i];")),
+    N("matrix-copied-by-explicit-index", (H, "  for (int j=0;j<n;j++) for (int i=0;i<m;i++,data++) A(i,j) = *data;", "  for (int j=0;j<n;j++) for (int i=0;i<m;i++) A(i,j) = data[j*m+i];")),
+    N("matrix-copied-row-by-row-with-strided-reads", (H, "  for (int j=0;j<n;j++) for (int i=0;i<m;i++,data++) A(i,j) = *data;", "  for (int i=0;i<m;i++) for (int j=0;j<n;j++) A(i,j) = data[i+j*m];")),
+]
